@@ -27,5 +27,5 @@ ASSUMPTIONS = ["the regex crate's Unicode classes: \\s = White_Space, `.` = any 
 
 def families(tier, seed):
     if tier == "quick":
-        return [("pmtype", seed, 600, []), ("config", seed, 400, ["valid"])]
-    return [("pmtype", seed, 6000, []), ("config", seed, 6000, ["valid"])]
+        return [("pmtype", seed, 600, []), ("config", seed, 1500, ["valid"])]
+    return [("pmtype", seed, 6000, []), ("config", seed, 20000, ["valid"])]
